@@ -8,7 +8,9 @@ import (
 
 // C37: every feature present in an edited world is valid.
 //
-// The geometry world of C13 (three points, closed path a,b,c,a, an area on it)
+// The geometry world of C13 (three points, closed path a,b,c,a, an area on it
+// whose only polygon is that path, or - by decision - whose first polygon is
+// explicit and whose second is that path)
 // receives one AddFeature of a replacement path (1..4 points from a, b, c and
 // a missing point d; closed candidates, which need S2 loop validation, are
 // left out). Whether the change is accepted or rejected, afterwards the path
@@ -49,7 +51,7 @@ func vhCheckValid(w b6.World, what string) {
 func VH_C37_BasicWorldStaysValid() {
 	vStub("diagonal.works/b6.Covering", vhNoCovering)
 	w := NewBasicMutableWorld()
-	vhGeometryWorld(w.features, w.references)
+	vhGeometryWorldWithArea(w.features, w.references, vBool("mixedarea"))
 	vhCheckValid(w, "initial world")
 	w.AddFeature(vhReplacement())
 	vReach("edited")
@@ -60,11 +62,12 @@ func VH_C37_BasicWorldStaysValid() {
 func VH_C37_OverlayWorldStaysValid() {
 	vStub("diagonal.works/b6.Covering", vhNoCovering)
 	base := NewBasicMutableWorld()
-	vhGeometryWorld(base.features, base.references)
+	mixed := vBool("mixedarea")
+	vhGeometryWorldWithArea(base.features, base.references, mixed)
 	w := NewMutableOverlayWorld(base)
 	switch vChoice("overlaystate", 3) {
 	case 1:
-		vhGeometryWorld(w.features, w.references)
+		vhGeometryWorldWithArea(w.features, w.references, mixed)
 	case 2:
 		w.AddTag(vhPathID, b6.Tag{Key: "name", Value: b6.NewStringExpression("n")})
 	}
